@@ -227,6 +227,20 @@ func caseC11(t TB, prog *Program) {
 				continue
 			}
 			body := []byte(canon(f.D))
+			// a file written by another tool: same content, other bytes (indented, member
+			// order irrelevant, an extra member the struct does not know)
+			if f.Seed%2 == 0 {
+				var generic map[string]interface{}
+				dec := json.NewDecoder(bytes.NewReader(body))
+				dec.UseNumber()
+				if dec.Decode(&generic) == nil {
+					generic["XForeignComment"] = "written by another tool"
+					if b, err := json.MarshalIndent(generic, "", "   "); err == nil {
+						body = b
+						e.flag("foreign-formatted-file-added")
+					}
+				}
+			}
 			if e.cfg.Compress {
 				body = gz(body)
 			}
